@@ -3,7 +3,7 @@ import itertools
 import re
 
 from common import Stream
-from props.srvlib import (COMMON_META, bld_stream, compare, env_ops_of, first_fault_index, gen_scripts, in_progress, parse_case,
+from props.srvlib import (COMMON_META, srv_probe, bld_stream, compare, env_ops_of, first_fault_index, gen_scripts, in_progress, parse_case,
                           parse_trace, settled_epilogue, shrink_ops, undispatched, EPILOGUE)
 
 META = dict(COMMON_META)
@@ -221,9 +221,11 @@ def scenario_cases(depth):
 
 
 def mk(name, cases, describe):
-    return Stream(name, "srv", cases, compare=c05_compare,
-                  monitor=lambda c, i, m: c05_pred(c, i) is None,
-                  nontrivial=nontrivial, shrink=shrink_ops, finding_key=finding_key, describe=describe, timeout=400)
+    st = Stream(name, "srv", cases, compare=c05_compare,
+                monitor=lambda c, i, m: c05_pred(c, i) is None,
+                nontrivial=nontrivial, shrink=shrink_ops, finding_key=finding_key, describe=describe, timeout=400)
+    st.probe = srv_probe      # when the traces disagree: release everything, fresh clients WITHOUT a Resume, settle
+    return st
 
 
 def streams(ctx):
